@@ -3,7 +3,7 @@ SPEC = dict(
     title="Reaping snapshots is crash-safe",
     pkg="./snapshot", files=["snapshot/c07_verif_test.go"],
     rule="8 hand-picked store shapes (older fulls / older incrementals, full with 0-2 own WALs, 0-3 incrementals with 1-3 WALs) plus random shapes "
-         "(quick 2, thorough 40), real SQLite data; per shape EVERY crash image of the stepped real reap plan (between operations, between the WALs of the "
+         "(quick 2, thorough 24), real SQLite data; per shape EVERY crash image of the stepped real reap plan (between operations, between the WALs of the "
          "checkpoint operation, after every page write / removed directory entry / truncated meta.json and sidecar) and second crashes during the recovery "
          "(quick: sampled, thorough: all); a case is non-trivial when the store has >= 2 incrementals or >= 1 older snapshot and the (first) crash is "
          "strictly inside the plan (after the plan file exists, before it is removed); distinct by shape + crash path",
